@@ -16,6 +16,7 @@ import (
 	"github.com/pingcap/kvproto/pkg/metapb"
 	"github.com/pingcap/log"
 	"github.com/tikv/pd/server/core"
+	"github.com/tikv/pd/server/kv"
 	"github.com/tikv/pd/server/schedule/placement"
 	"go.uber.org/zap"
 
@@ -55,6 +56,12 @@ type caseJ struct {
 	Rules  []ruleJ  `json:"rules"`
 	A      regionJ  `json:"a"`
 	B      regionJ  `json:"b"`
+	// manager stream: the rules are installed into a real RuleManager (SetRule g/r<i>, index i), the stores
+	// into a real core.BasicCluster, and RuleManager.FitRegion is called; Rules is then what
+	// GetRulesForApplyRegion serves (read back on every run)
+	Manager     bool    `json:"manager,omitempty"`
+	Install     []ruleJ `json:"install,omitempty"`
+	DropDefault bool    `json:"drop_default,omitempty"`
 }
 
 // ---------- the mock store set ----------
@@ -461,9 +468,26 @@ func genFitting(r *rng.R) caseJ {
 	return c
 }
 
+// manager stream: the same inputs, but through RuleManager.FitRegion with the stores cached in a real
+// core.BasicCluster and the rules served by a real RuleManager (after adjustRule, override and the default rule)
+func genManager(r *rng.R) caseJ {
+	c := genFitting(r)
+	if r.Pct(50) {
+		c = caseJ{Stores: genStores(r, false), Rules: genRules(r, false)}
+		c.A = genRegion(r, c.Stores, false)
+		c.B = mutate(r, c.A, c.Stores, false)
+	}
+	c.Stream, c.Manager, c.Install, c.Rules = "manager", true, c.Rules, nil
+	c.DropDefault = r.Pct(60)
+	return c
+}
+
 func genCase(r *rng.R) caseJ {
 	if r.Pct(22) {
 		return genFitting(r)
+	}
+	if r.Pct(12) {
+		return genManager(r)
 	}
 	malformed := r.Pct(12)
 	c := caseJ{Stream: "valid"}
@@ -524,8 +548,51 @@ type outcome struct {
 	ab, ba     int
 }
 
-func run(R *res.Result, c caseJ) outcome {
+// managerSetup installs the case into a real RuleManager / BasicCluster and reads the served rules back.
+func managerSetup(c *caseJ) (*placement.RuleManager, *core.BasicCluster) {
+	bc := core.NewBasicCluster()
+	seen := map[uint64]bool{}
+	for _, s := range c.Stores {
+		if seen[s.ID] {
+			continue
+		}
+		seen[s.ID] = true
+		var ls []*metapb.StoreLabel
+		for _, l := range s.Labels {
+			ls = append(ls, &metapb.StoreLabel{Key: l[0], Value: l[1]})
+		}
+		bc.PutStore(core.NewStoreInfo(&metapb.Store{Id: s.ID, Labels: ls}))
+	}
+	m := placement.NewRuleManager(core.NewStorage(kv.NewMemoryKV()), nil)
+	if err := m.Initialize(3, []string{"zone", "host"}); err != nil {
+		panic(err)
+	}
+	for i, r := range c.Install {
+		pr := mkRules([]ruleJ{r})[0]
+		pr.GroupID, pr.ID, pr.Index = "g", fmt.Sprintf("r%d", i), i
+		_ = m.SetRule(pr) // invalid contents are rejected by the manager
+	}
+	if c.DropDefault {
+		_ = m.DeleteRule("pd", "default") // rejected when nothing valid would be left
+	}
+	c.Rules = nil
+	for _, pr := range m.GetRulesForApplyRegion(mkRegion(c.A)) {
+		rj := ruleJ{Role: string(pr.Role), Count: pr.Count, Locs: pr.LocationLabels}
+		for _, k := range pr.LabelConstraints {
+			rj.Cons = append(rj.Cons, consJ{Key: k.Key, Op: string(k.Op), Values: k.Values})
+		}
+		c.Rules = append(c.Rules, rj)
+	}
+	return m, bc
+}
+
+func run(R *res.Result, c *caseJ) outcome {
 	ss := mkStores(c.Stores)
+	var mgr *placement.RuleManager
+	var bc *core.BasicCluster
+	if c.Manager {
+		mgr, bc = managerSetup(c)
+	}
 	rules := mkRules(c.Rules)
 	fit := func(r regionJ) (f *placement.RegionFit) {
 		defer func() {
@@ -534,6 +601,9 @@ func run(R *res.Result, c caseJ) outcome {
 				f = &placement.RegionFit{}
 			}
 		}()
+		if mgr != nil {
+			return mgr.FitRegion(bc, mkRegion(r))
+		}
 		return placement.FitRegion(ss, mkRegion(r), rules)
 	}
 	fa, fb := fit(c.A), fit(c.B)
@@ -565,7 +635,7 @@ func main() {
 
 	R := res.New("C12", *seed, *tier)
 	R.Rule = "inputs = (1..7 labelled stores, 0..4 rules with role/count/label constraints/location labels, region A of 1..6 peers, " +
-		"neighbour region B); streams: fitting 22% (rules written for region A), of the rest valid 88% / malformed 12% (missing store, unknown role or operator, count 0, no rule, learner leader) " +
+		"neighbour region B); streams: fitting 22% (rules written for region A), manager 9% (RuleManager.FitRegion on a real RuleManager + core.BasicCluster), of the rest valid 88% / malformed 12% (missing store, unknown role or operator, count 0, no rule, learner leader) " +
 		"plus the systematic grid stream (<= 3 rules x <= 4 peers x 2 label levels on a fixed 4-store layout, strided by the seed); non-trivial = at least 2 rules, some peer placed in a rule, and an orphan or a " +
 		"role mismatch or a positive isolation score; distinct by sha256 of the canonical Coq text of inputs and answers"
 	cf := &coqfmt.CaseFile{Dir: *out, Prefix: "C12", PerFile: 250,
@@ -575,7 +645,7 @@ func main() {
 
 	var all []caseJ
 	emit := func(c caseJ) outcome {
-		o := run(R, c)
+		o := run(R, &c)
 		R.Count("stream:" + c.Stream)
 		R.Count(fmt.Sprintf("rules:%d", len(c.Rules)))
 		R.Count(fmt.Sprintf("peersA:%d", len(c.A.Peers)))
